@@ -3,6 +3,7 @@ use crate::known::Finding;
 use serde_json::Value;
 use std::collections::BTreeSet;
 
+pub mod c09;
 pub mod c19;
 pub mod c20;
 pub mod c21;
@@ -72,6 +73,7 @@ pub struct PropInfo {
 pub fn registry() -> Vec<PropInfo> {
     let mut v = vec![];
     v.extend(hist::props());
+    v.extend(c09::props());
     v.extend(c19::props());
     v.extend(c20::props());
     v.extend(c21::props());
